@@ -128,6 +128,7 @@ func mapGlobalSecondaryIndexDescriptionToDynamodb(input []types.GlobalSecondaryI
 	for i, gs := range input {
 		gsi[i] = &dynamodb.GlobalSecondaryIndexDescription{
 			IndexName: gs.IndexName,
+			ItemCount: aws.Int64(gs.ItemCount),
 			Projection: &dynamodb.Projection{
 				NonKeyAttributes: gs.Projection.NonKeyAttributes,
 				ProjectionType:   gs.Projection.ProjectionType,
@@ -144,6 +145,7 @@ func mapLocalSecondaryIndexDescriptionToDynamodb(input []types.LocalSecondaryInd
 	for i, si := range input {
 		lsi[i] = &dynamodb.LocalSecondaryIndexDescription{
 			IndexName: si.IndexName,
+			ItemCount: aws.Int64(si.ItemCount),
 			Projection: &dynamodb.Projection{
 				NonKeyAttributes: si.Projection.NonKeyAttributes,
 				ProjectionType:   si.Projection.ProjectionType,
